@@ -13,6 +13,7 @@
     only - hence "partial" in the manifest. *)
 From CB Require Import Pipe PipeCorrect.
 From CB Require Import ProofLib Spec Chain Programs Inv_for_each.
+From CB Require Import Chain Programs Tree TreePrograms TreeFunctional Order_nary Inv_for_each.
 From Coq Require Import List Arith.
 Import ListNotations.
 
@@ -67,3 +68,56 @@ Theorem C06_pipeline_example :
   pend (net_run (pipe_net ex_it ex_stages true) ex_moves_exact) = PIdle.
 Proof. exact ex_pipeline_enabled. Qed.
 Print Assumptions C06_pipeline_example.
+
+(** ** programs with concat! stages and trees (TreeFunctional.v): at every idle point of a reachable program net *)
+
+(** a map/filter/scan/take/skip node has delivered its list function of what its child delivered *)
+Theorem C06_prog_stage (ts : list tnode) (es : list edge) (N : tnet)
+  (Hok : Forall tnode_ok ts) (Hes : edges_okb es (length ts) = true)
+  (Hsink : forall e, In e es -> nth_error ts (e_child e) <> Some TSink)
+  (Hr : tnet_reach (wiring_of es) (prog_net ts) N) (Hidle : tpend N = PIdle)
+  i n s c U :
+    nth_error (tnodes N) i = Some n -> nth_error ts i = Some (TStage s) ->
+    In (c, i, 0) es -> nth_error (tnodes N) c = Some U ->
+    data_out 0 (ntrace n) = usem1 s (data_out 0 (ntrace U)).
+Proof. exact (@prog_stage ts es N Hok Hes Hsink Hr Hidle i n s c U). Qed.
+Print Assumptions C06_prog_stage.
+
+(** a concat! node has delivered its members' outputs one after the other, in member order (append) *)
+Theorem C06_prog_concat (ts : list tnode) (es : list edge) (N : tnet)
+  (Hok : Forall tnode_ok ts) (Hes : edges_okb es (length ts) = true)
+  (Hsink : forall e, In e es -> nth_error ts (e_child e) <> Some TSink)
+  (Hr : tnet_reach (wiring_of es) (prog_net ts) N) (Hidle : tpend N = PIdle)
+  i n k (kids : list nat) (Us : list node) :
+    nth_error (tnodes N) i = Some n -> nth_error ts i = Some (TConcat k) ->
+    length kids = k -> length Us = k ->
+    (forall j c U, nth_error kids j = Some c -> nth_error Us j = Some U ->
+       In (c, i, j) es /\ nth_error (tnodes N) c = Some U) ->
+    data_out 0 (ntrace n) = flat_map (fun U => data_out 0 (ntrace U)) Us.
+Proof. exact (@prog_concat ts es N Hok Hes Hsink Hr Hidle i n k kids Us). Qed.
+Print Assumptions C06_prog_concat.
+
+(** for_each has called its closure on exactly what its child delivered *)
+Theorem C06_prog_sink (ts : list tnode) (es : list edge) (N : tnet)
+  (Hok : Forall tnode_ok ts) (Hes : edges_okb es (length ts) = true)
+  (Hsink : forall e, In e es -> nth_error ts (e_child e) <> Some TSink)
+  (Hr : tnet_reach (wiring_of es) (prog_net ts) N) (Hidle : tpend N = PIdle)
+  i n c U :
+    nth_error (tnodes N) i = Some n -> nth_error ts i = Some TSink ->
+    In (c, i, 0) es -> nth_error (tnodes N) c = Some U ->
+    user_calls (ntrace n) = data_out 0 (ntrace U).
+Proof. exact (@prog_sink ts es N Hok Hes Hsink Hr Hidle i n c U). Qed.
+Print Assumptions C06_prog_sink.
+
+(** from_iter has delivered the defined prefix of its iterator *)
+Theorem C06_prog_src (ts : list tnode) (es : list edge) (N : tnet)
+  (Hok : Forall tnode_ok ts) (Hes : edges_okb es (length ts) = true)
+  (Hsink : forall e, In e es -> nth_error ts (e_child e) <> Some TSink)
+  (Hr : tnet_reach (wiring_of es) (prog_net ts) N) (Hidle : tpend N = PIdle)
+  i n it :
+    nth_error (tnodes N) i = Some n -> nth_error ts i = Some (TSrc it) ->
+    exists pos, map Some (data_out 0 (ntrace n)) =
+                filter (fun r => match r with Some _ => true | None => false end) (map it (seq 0 pos)).
+Proof. exact (@prog_src ts es N Hok Hes Hsink Hr i n it). Qed.
+Print Assumptions C06_prog_src.
+
